@@ -587,7 +587,8 @@ def rule_f(ctx):
     rule_source(ctx, 'C06.e')
     rule_small_sources(ctx, 'C06.e')
     # the observable-backed publishers of the Rx adapters: credit reaches one long-lived feeder (shared C20.g)
-    from .c20 import rule_g as c20g, rule_i as c20i
+    from .c20 import rule_g as c20g, rule_i as c20i, rule_k as c20k
+    c20k(ctx)
     c20g(ctx)
     # ... and nothing but request(n) puts credit into that queue's Subject (shared C20.i)
     c20i(ctx)
@@ -616,6 +617,8 @@ def rule_genpub(ctx):
     re-entry, rules/genpublisher.py)."""
     from .genpublisher import rule_completed_publisher_stays_completed
     rule_completed_publisher_stays_completed(ctx, 'C07.e')
+    from .genpublisher import rule_failure_stops_delivery_first
+    rule_failure_stops_delivery_first(ctx, 'C07.e')
 
 
-RULES = [('C06.a', rule_a), ('C06.b', rule_b), ('C06.c', rule_c), ('C06.a', rule_g), ('C06.d', rule_e), ('C06.e+C20.g+C20.i', rule_f), ('C07.e', rule_genpub), ('C05.a+C05.b+C14.f', rule_d)]
+RULES = [('C06.a', rule_a), ('C06.b', rule_b), ('C06.c', rule_c), ('C06.a', rule_g), ('C06.d', rule_e), ('C06.e+C20.g+C20.i+C20.k', rule_f), ('C07.e', rule_genpub), ('C05.a+C05.b+C14.f', rule_d)]
